@@ -302,6 +302,14 @@ def cmrBlock (ctx : CmrContext) (a b s : Nat) : Option (List (Nat × Nat)) :=
 def cmrParse {φ : Type} [DecidableEq φ] (ctx : CmrContext) (files : List (φ × Option (Nat × Nat))) : Parsed φ :=
   parseFilenames (files.map fun x => (x.1, x.2.map fun ab => cmrNumSlices ctx ab.1 ab.2)) none
 
+/-- construction of a `CMRxReconDataset`: the same file selection as `H5SliceData` (without a regex), then the fold;
+`shapeOf f = none`: missing / unreadable file -/
+def buildCmr {φ : Type} [DecidableEq φ] (sortListing dedup : Bool) (le : φ → φ → Bool) (sel : Selection φ)
+    (ctx : CmrContext) (shapeOf : φ → Option (Nat × Nat)) : Except Err (Parsed φ) :=
+  match selectFiles sortListing dedup le sel with
+  | .error e => .error e
+  | .ok fs => .ok (cmrParse ctx (fs.map fun f => (f, shapeOf f)))
+
 def cmrItem {φ : Type} (P : Parsed φ) (ctx : CmrContext) (shapeOf : φ → Nat × Nat) (idx : Int) :
     Except Err (φ × Nat × List (Nat × Nat)) :=
   match pyIndex P.data idx with
@@ -320,9 +328,25 @@ def cumsumFrom (total : Nat) : List Nat → List Nat
 
 def cumsum (sizes : List Nat) : List Nat := cumsumFrom 0 sizes
 
-/-- `bisect.bisect_right(xs, x)` for a non-decreasing list: the number of elements `≤ x`
-(standard-library behaviour, trusted; `cumsum` is proved non-decreasing). -/
+/-- specification of `bisect.bisect_right(xs, x)` on a non-decreasing list: the number of elements `≤ x`
+(what the executed `bisectRightBin` is proved to return on `cumsum sizes`). -/
 def bisectRight (xs : List Nat) (x : Int) : Nat := (xs.takeWhile fun (v : Nat) => decide ((v : Int) ≤ x)).length
+
+/-- the loop of CPython's `bisect.bisect_right(a, x)` (`Lib/bisect.py`, `Modules/_bisectmodule.c`):
+`while lo < hi: mid = (lo + hi) // 2; if x < a[mid]: hi = mid else: lo = mid + 1`; `fuel` bounds the number of
+iterations (`hi - lo` iterations suffice, `bisectLoop_eq`). -/
+def bisectLoop (xs : List Nat) (x : Int) : Nat → Nat → Nat → Nat
+  | 0, lo, _ => lo
+  | fuel + 1, lo, hi =>
+    if lo < hi then
+      let mid := (lo + hi) / 2
+      if x < ((xs.getD mid 0 : Nat) : Int) then bisectLoop xs x fuel lo mid
+      else bisectLoop xs x fuel (mid + 1) hi
+    else lo
+
+/-- `bisect.bisect_right(xs, x)` as CPython computes it (binary search from `lo = 0`, `hi = len(xs)`), for **any**
+list, sorted or not.  On a non-decreasing list it is the number of elements `≤ x` (`bisectRightBin_eq_count`). -/
+def bisectRightBin (xs : List Nat) (x : Int) : Nat := bisectLoop xs x xs.length 0 xs.length
 
 /-- `-idx > len(self)` and `len(self) + idx` -/
 def concatNegReject (idx len : Int) : Bool := -idx > len
@@ -337,7 +361,7 @@ def locate (sizes : List Nat) (idx : Int) : Except Err (Nat × Nat) :=
   let len : Int := (cum.getLast?.getD 0 : Nat)            -- `self.cumulative_sizes[-1]`
   if idx < 0 ∧ concatNegReject idx len then .error .valueError else
   let idx := if idx < 0 then concatNegIdx idx len else idx
-  let d := bisectRight cum idx
+  let d := bisectRightBin cum idx
   let j := concatSampleIdx idx d ((cum[d - 1]?.getD 0 : Nat) : Int)
   if d < sizes.length then .ok (d, j.toNat)               -- `self.datasets[dataset_idx]`
   else .error .indexError
@@ -346,20 +370,84 @@ def locate (sizes : List Nat) (idx : Int) : Except Err (Nat × Nat) :=
 def concatGet (sizes : List Nat) (idx : Int) : Except Err (Nat × Nat) :=
   if sizes.isEmpty then .error .assertionError else locate sizes idx
 
+/-- the flat enumeration of the members' items: `[(d, j) for d, m in enumerate(members) for j in range(len(m))]` -/
+def flatPairsFrom (d : Nat) : List Nat → List (Nat × Nat)
+  | [] => []
+  | n :: ns => ((List.range n).map fun j => (d, j)) ++ flatPairsFrom (d + 1) ns
+
+def flatPairs (sizes : List Nat) : List (Nat × Nat) := flatPairsFrom 0 sizes
+
+/-! ## Synthetic datasets: which (volume, slice, seed) an index designates -/
+
+/-- `num_slices = self.spatial_shape[0] if len(self.spatial_shape) == 3 else 1` (`FakeMRIBlobsDataset`) -/
+def fakeNumSlices (ndim shape0 : Int) : Int := if ndim = 3 then shape0 else 1
+
+/-- `FakeMRIBlobsDataset.parse_filenames_data`, the names: the given list when it has `sample_size` entries, otherwise
+`filenames[0] + f"{k:05}"` for `k = 1 … sample_size` (`mk b k`); `None` → `["sample"]`, a string → `[s]` are formed by
+the caller of this function. -/
+def fakeNames {φ : Type} (given : List φ) (sampleSize : Nat) (mk : φ → Nat → φ) : Except Err (List φ) :=
+  if given.length ≠ sampleSize then
+    match given with
+    | [] => .error .indexError
+    | b :: _ => .ok ((List.range sampleSize).map fun k => mk b (k + 1))
+  else .ok given
+
+/-- `self.data` (`(filename, slice_no, seed)`) and `self.volume_indices` of a `FakeMRIBlobsDataset` -/
+structure FakeParsed (φ : Type) where
+  data : List (φ × Nat × Nat)
+  vols : List (φ × Nat × Nat)
+deriving Repr
+
+/-- `self.data = [(filename, slice_no, seed) for (filename, seed) in zip(names, seeds) for slice_no in range(nz)]`;
+`volume_indices[PosixPath(filename)] = range(cur, cur + nz); cur += nz` for every name (a `dict` assignment: the same
+fold as `H5SliceData`, every "file" having `nz` slices). -/
+def fakeBuild {φ : Type} [DecidableEq φ] (names : List φ) (seeds : List Nat) (nz : Nat) : FakeParsed φ :=
+  { data := (names.zip seeds).flatMap fun x => (List.range nz).map fun s => (x.1, s, x.2)
+    vols := (parseFilenames (names.map fun f => (f, some nz)) none).vols }
+
+/-- `FakeMRIBlobsDataset.__getitem__` up to the generator call: `self.data[idx]` (Python list indexing) -/
+def fakeIndex {φ : Type} (P : FakeParsed φ) (idx : Int) : Except Err (φ × Nat × Nat) := pyIndex P.data idx
+
+/-- `SheppLoganDataset.__getitem__(idx)`: the slice `sample_image` renders (`… [idx % self.nz]`), the position of the
+seed used (`self.seed[idx]`, Python list indexing — the only thing that rejects an index), and the reported
+`slice_no` (`idx` itself, as given). -/
+def sheppIndex (nz : Nat) (idx : Int) : Except Err (Nat × Nat × Int) :=
+  match pyIndex (List.range nz) idx with
+  | .error e => .error e
+  | .ok k => .ok ((Int.fmod idx nz).toNat, k, idx)
+
+/-- whether the reported `slice_no` is the index as given (current tree) or the rendered slice -/
+def sheppReportsIndexAsGiven : Bool := true
+
 /-! ## Seeded synthetic items: explicit RNG streams
 
 `G` is the state of the **global** numpy stream (`np.random.*` module functions), `V` the type of
 drawn values.  `seeded s` is the state a stream has right after being seeded with `s`
 (`np.random.seed(s)`, or a private `RandomState(s)`); each draw returns a value and the next
 state. -/
+/-- what `FakeMRIData.make_blobs` asks of `sklearn.datasets.make_blobs`: `centers=num_coils`, `n_features=self.ndim`,
+`n_samples` (`blobs_n_samples` or `prod(spatial_shape) // ndim`) -/
+structure BlobArgs where
+  centers : Nat
+  features : Nat
+  samples : Nat
+deriving Repr, DecidableEq
+
 structure Rng (G V : Type) where
   seeded : Nat → G
   /-- `np.random.uniform(0, 2π, 1)` -/
   uniform : G → V × G
   /-- `np.random.randn(*shape)` with `k` elements -/
   randn : Nat → G → V × G
-  /-- the draws `sklearn.datasets.make_blobs` takes from the stream it is given -/
-  blobs : G → V × G
+  /-- the draws `sklearn.datasets.make_blobs(n_samples, n_features, centers=…)` takes from the stream it is given -/
+  blobs : BlobArgs → G → V × G
+
+/-- `n_samples = self.blobs_n_samples if self.blobs_n_samples else np.prod(list(spatial_shape)) // self.ndim` -/
+def blobsNSamples (given total ndim : Int) : Int := if given ≠ 0 then given else Int.fdiv total ndim
+
+/-- the arguments of the `make_blobs` call for a volume of `shape` with `coils` coils (`given = 0`: `blobs_n_samples` unset) -/
+def blobArgs (shape : List Nat) (coils given : Nat) : BlobArgs :=
+  ⟨coils, shape.length, (blobsNSamples given (DirectVerif.prod shape) shape.length).toNat⟩
 
 /-- the seed plumbing of `FakeMRIData` / `simulate_sensitivity_maps` as read off the source -/
 structure SeedTable where
@@ -403,13 +491,13 @@ def simSens {G V} (R : Rng G V) (seedsOnNotNone : Bool) (coils : Nat) (seed : Op
 `get_kspace` → `make_blobs`, `simulate_sensitivity_maps`: the pair (blob draws, sensitivity offset)
 from which the k-space volume is computed deterministically (the returned item is slice `slice_no` of
 it), and the global state afterwards. -/
-def fakeDraws {G V} (R : Rng G V) (t : SeedTable) (coils : Nat) (seed : Nat) (g : G) :
+def fakeDraws {G V} (R : Rng G V) (t : SeedTable) (a : BlobArgs) (coils : Nat) (seed : Nat) (g : G) :
     (V × Option V) × G :=
   let sd : Option Nat := if t.itemPassesSeed && t.callPassesSeed then some seed else none
   let bs : Option Nat := if t.kspacePassesSeedToBlobs && t.blobsRandomStateIsSeed then sd else none
   let (blobs, g) := match bs with
-    | some s => ((R.blobs (R.seeded s)).1, g)         -- private stream; global untouched
-    | none => R.blobs g                               -- sklearn falls back to the global stream
+    | some s => ((R.blobs a (R.seeded s)).1, g)       -- private stream; global untouched
+    | none => R.blobs a g                             -- sklearn falls back to the global stream
   let ss : Option Nat := if t.kspacePassesSeedToSens then sd else none
   let (off, g) := simSens R t.sensSeedsWhenNotNone coils ss g
   ((blobs, off), g)
@@ -417,8 +505,8 @@ def fakeDraws {G V} (R : Rng G V) (t : SeedTable) (coils : Nat) (seed : Nat) (g 
 /-- the item as a function of the draws: `render` stands for the deterministic numerics
 (`scale_data`, image from samples, sensitivity maps from the offset, FFT, `[slice_no]`). -/
 def fakeItem {G V O} (R : Rng G V) (t : SeedTable) (render : V × Option V → Nat → O)
-    (coils seed sliceNo : Nat) (g : G) : O × G :=
-  let (d, g) := fakeDraws R t coils seed g
+    (a : BlobArgs) (coils seed sliceNo : Nat) (g : G) : O × G :=
+  let (d, g) := fakeDraws R t a coils seed g
   (render d sliceNo, g)
 
 /-- seed plumbing of `SheppLoganDataset.__getitem__` -/
@@ -469,8 +557,26 @@ inductive GOp where
   | seed (s : Nat)
   | uniform
   | randn (k : Nat)
-  | blobs
+  /-- `generator.uniform(lo, hi, size=…)` with `k` elements -/
+  | uniformN (k : Nat)
+  /-- `generator.normal(loc, scale, size=…)` with `k` elements -/
+  | normalN (k : Nat)
+  /-- `generator.shuffle(indices)` on `n` indices -/
+  | shuffleN (n : Nat)
 deriving Repr, DecidableEq
+
+/-- `n_samples_per_center`: `[n // k] * k`, the first `n % k` incremented -/
+def blobCounts (n k : Nat) : List Nat := (List.range k).map fun i => n / k + (if i < n % k then 1 else 0)
+
+/-- the requests `sklearn.datasets.make_blobs` makes to its generator, in order: the centres
+(`uniform(size=(centers, features))`), one `normal(size=(n_i, features))` per centre, the final shuffle of the
+`n_samples` rows -/
+def blobRequests (a : BlobArgs) : List GOp :=
+  [GOp.uniformN (a.centers * a.features)] ++ (blobCounts a.samples a.centers).map (fun m => GOp.normalN (m * a.features))
+    ++ [GOp.shuffleN a.samples]
+
+/-- `image.shape = (num_coils, nx, ny)`: number of noise samples `SheppLoganDataset` draws for an all-zero slice -/
+def sheppNoiseCount (coils nx ny : Nat) : Nat := coils * nx * ny
 
 /-- free stream: the state *is* the list of operations since the last seeding, and a drawn value
 is identified with the state it was drawn from -/
@@ -478,13 +584,13 @@ def symRng : Rng (List GOp) (List GOp) where
   seeded s := [GOp.seed s]
   uniform g := (g ++ [GOp.uniform], g ++ [GOp.uniform])
   randn k g := (g ++ [GOp.randn k], g ++ [GOp.randn k])
-  blobs g := (g ++ [GOp.blobs], g ++ [GOp.blobs])
+  blobs a g := (g ++ blobRequests a, g ++ blobRequests a)
 
 /-- a tiny concrete stream used for witnesses: state = counter, draws return the counter -/
 def toyRng : Rng Nat Nat where
   seeded s := 1000 * (s + 1)
   uniform g := (g, g + 1)
   randn _ g := (g, g + 1)
-  blobs g := (g, g + 1)
+  blobs _ g := (g, g + 1)
 
 end DirectVerif.Dataset
